@@ -115,7 +115,7 @@ def check_case(case, ctx, h=None):
         raise Violation(case, 'script inside the domain was refused: %s' % got['refused'], observed=got, expected=_short(exp))
     nexec = len(exp['trace'])
     cls = case.get('cls') or 'grammar'
-    nontriv = nexec >= 3 or cls in ('operand', 'enum1', 'enum2', 'long', 'deep-if', 'p2sh-shape')
+    nontriv = nexec >= 3 or cls in ('operand', 'enum1', 'enum2', 'long', 'deep-if', 'p2sh-shape', 'deep-stack')
     ctx.case(key, nontriv, dict(case_json(case), outcome=exp['err'] or 'ok', ops=nexec), cls)
     ctx.count('outcome:' + (exp['err'] or 'ok'))
     ctx.count('sv:%d' % case['sv'])
@@ -227,6 +227,36 @@ def long_cases(draw):
 
 
 @st.composite
+def deep_stack_cases(draw):
+    """stacks of several hundred items (limit: 1000 with the alt stack): OP_PICK / OP_ROLL with indices beyond one byte and at the far end, OP_DEPTH
+    results beyond 255, bulk moves to the alt stack and back, the 2/3-item movers near the limit"""
+    n = draw(st.sampled_from([254, 255, 256, 257, 258, 300, 511, 512, 513, 700, 996, 997, 998, 999, 1000]))
+    distinct = draw(st.booleans())
+    stack = [R.num_enc(i) if distinct else b'\x01' for i in range(n)]
+    body = bytearray()
+    for _ in range(draw(st.integers(1, 6))):
+        k = draw(st.integers(0, 9))
+        if k < 4:
+            idx = draw(st.sampled_from([0, 1, 127, 128, 254, 255, 256, 257, 258, 511, 512, n - 3, n - 2, n - 1, n, n + 1]))
+            body += G.push(R.num_enc(idx), draw(st.sampled_from([0, 0, 1, 2]))) + bytes([draw(st.sampled_from([0x79, 0x7a]))])
+        elif k == 4:
+            body += b'\x74'
+        elif k == 5:
+            m = draw(st.sampled_from([1, 255, 256, 257, n]))
+            body += b'\x6b' * m + b'\x6c' * draw(st.sampled_from([0, 1, m, m + 1]))
+        elif k == 6:
+            body += bytes([draw(st.sampled_from([0x6e, 0x6f, 0x70, 0x71, 0x72, 0x7d, 0x73, 0x76, 0x78]))])
+        elif k == 7:
+            body += b'\x74' + bytes([draw(st.sampled_from([0x79, 0x7a]))])      # DEPTH PICK / ROLL: index == depth -> one too far
+        elif k == 8:
+            body += b'\x74\x8c' + bytes([draw(st.sampled_from([0x79, 0x7a]))])  # DEPTH 1SUB PICK / ROLL: the bottom item
+        else:
+            body += b'\x6d' * draw(st.sampled_from([1, 127, 128, 129, 200]))
+    flags = draw(G.flagsets())
+    return dict(script=bytes(body), stack=stack, flags=flags, sv=draw(st.sampled_from([R.TAPSCRIPT, R.TAPSCRIPT, R.WITNESS_V0, R.BASE])), tx=None, cls='deep-stack')
+
+
+@st.composite
 def p2sh_shape_cases(draw):
     """scripts of the pay-to-script-hash shape (HASH160 <20 bytes> EQUAL) with the preimage on the stack: as a legacy script under the P2SH flag the
     preimage is then run as a script; as a witness script / tapscript leaf, or without the flag, the shape means nothing"""
@@ -279,6 +309,10 @@ def deep_if_cases(draw):
 
 
 # ------------------------------------------------------------------ worker tasks
+def w_deep_stack(ctx, wid, seed, examples):
+    core.hyp_campaign(ctx, 'deep-stack', deep_stack_cases(), check_case, examples, seed, case_json)
+
+
 def w_p2sh_shape(ctx, wid, seed, examples):
     core.hyp_campaign(ctx, 'p2sh-shape', p2sh_shape_cases(), check_case, examples, seed, case_json)
 
@@ -363,6 +397,7 @@ def run(tier, t0):
     tasks += [(w_long, dict(examples=max(40, r // 8))) for _ in range(max(2, W // 4))]
     tasks += [(w_deep_if, dict(examples=max(60, r // 8))) for _ in range(2)]
     tasks += [(w_p2sh_shape, dict(examples=max(300, r))) for _ in range(2)]
+    tasks += [(w_deep_stack, dict(examples=max(60, r // 8))) for _ in range(2)]
     m = core.parallel(PID, tasks)
     m.exhaustive = False
     extra = dict(enumerated='all 256 one-letter scripts x %d stacks x 3 versions x %d flag sets; two-letter scripts: %s' % (
